@@ -83,6 +83,7 @@ fn ii_width(ii: &png::InterlaceInfo, subframe_width: u32) -> u32 {
 /// calls whose caller-side buffer (or the canvas-wide row) would exceed this are not made (`toolarge`), on both sides
 pub const MAX_BUF: usize = 1 << 22;
 
+#[derive(Clone)]
 pub struct Config {
     pub opts: [bool; 5],
     pub limit: Option<usize>,
